@@ -1420,9 +1420,9 @@ def strat_compile(draw, tier):
     models = [draw(model_specs(kmax=4, with_bootstrap=False, names_pool=_COMPILE_POOL)) for _ in range(n)]
     for m in models:
         m['model_name'] = draw(st.sampled_from(_MODEL_NAME_POOL))
-    via_directory = draw(st.sampled_from(range(8))) == 7
+    via_directory = draw(st.sampled_from(range(6))) == 5
     # how the models are given: all as objects, all as files, or each one in its own way
-    how = 'pickle' if via_directory else draw(st.sampled_from(['object', 'object', 'pickle', 'mixed', 'mixed']))
+    how = 'pickle' if via_directory else draw(st.sampled_from(['object', 'pickle', 'mixed', 'mixed', 'mixed']))
     entries = []
     for i in range(n):
         kind = how if how != 'mixed' else draw(st.sampled_from(RESULT_KINDS))
